@@ -194,7 +194,7 @@ func (s *scratch) build(harness string, race bool) string {
 	if race {
 		key = "race"
 	}
-	if p, ok := s.bins[key]; ok {
+	if p, ok := s.bins[harness+"."+key]; ok {
 		return p
 	}
 	out := filepath.Join(s.dir, harness+"."+key+".test")
@@ -212,7 +212,7 @@ func (s *scratch) build(harness string, race bool) string {
 		fatal2("building harness %s (%s) failed:\n%s", harness, key, o)
 	}
 	fmt.Printf("vcheck: built %s (%s) in %.1fs\n", harness, key, time.Since(t0).Seconds())
-	s.bins[key] = out
+	s.bins[harness+"."+key] = out
 	return out
 }
 
@@ -309,10 +309,13 @@ type found struct {
 	idx      int
 	seed     uint64
 	race     bool
+	harness  string
 }
 
 type batch struct {
 	spec     *propSpec
+	harness  string
+	chunk    int
 	tier     string
 	base     uint64
 	bin      string
@@ -357,7 +360,7 @@ func (b *batch) addOutcome(l line) {
 			data, _ = os.ReadFile(l.CaseFile)
 		}
 		for _, v := range o.Violations {
-			b.founds = append(b.founds, found{v: v, caseFile: l.CaseFile, caseData: data, idx: l.Idx, seed: l.Seed, race: b.race})
+			b.founds = append(b.founds, found{v: v, caseFile: l.CaseFile, caseData: data, idx: l.Idx, seed: l.Seed, race: b.race, harness: b.harness})
 		}
 	}
 }
@@ -366,7 +369,7 @@ func (b *batch) worker(w int) {
 	wdir := filepath.Join(b.sc.dir, fmt.Sprintf("w%d%s", w, map[bool]string{false: "", true: "r"}[b.race]))
 	os.MkdirAll(wdir, 0770)
 	for {
-		from, to, ok := b.takeChunk(b.spec.Chunk)
+		from, to, ok := b.takeChunk(b.chunk)
 		if !ok {
 			return
 		}
@@ -471,7 +474,7 @@ func (b *batch) abnormal(wdir string, idx int, first childResult) {
 		"VSIM_BASE=" + strconv.FormatUint(b.base, 10), "VSIM_FROM=" + strconv.Itoa(idx)}
 	data := genCase(b.bin, wdir, genEnv)
 	b.mu.Lock()
-	b.founds = append(b.founds, found{v: v, caseData: data, idx: idx, seed: seed, race: b.race})
+	b.founds = append(b.founds, found{v: v, caseData: data, idx: idx, seed: seed, race: b.race, harness: b.harness})
 	b.mu.Unlock()
 }
 
@@ -808,36 +811,46 @@ func cmdRun(args []string) int {
 	var all []*outcome
 	var founds []found
 	var infra []string
-	arms := []struct {
-		race bool
-		frac float64
-	}{{false, 1}}
+	type armT struct {
+		harness           string
+		race              bool
+		runs, budgetS     int
+		chunk             int
+		seedOffset        uint64
+	}
+	arms := []armT{{spec.Harness, false, tp.Runs, tp.BudgetS, spec.Chunk, 0}}
 	if tp.RaceRuns > 0 && !o.norace {
-		arms = append(arms, struct {
-			race bool
-			frac float64
-		}{true, 0})
+		arms = append(arms, armT{spec.Harness, true, tp.RaceRuns, tp.RaceBudgetS, spec.Chunk, 0})
+	}
+	for _, al := range spec.Also {
+		runs, bud := al.QuickRuns, al.QuickBudgetS
+		if o.tier == "thorough" {
+			runs, bud = al.ThoroughRuns, al.ThoroughBudgetS
+		}
+		if o.runs > 0 {
+			runs = o.runs / 2
+		}
+		arms = append(arms, armT{al.Harness, false, runs, bud, al.Chunk, 0x5EED})
+		if al.RaceRuns > 0 && !o.norace {
+			arms = append(arms, armT{al.Harness, true, al.RaceRuns, al.RaceBudgetS, al.Chunk, 0x5EED})
+		}
 	}
 	var raceOutcomes int
 	for _, arm := range arms {
-		b := &batch{spec: spec, tier: o.tier, base: o.seed, sc: sc, workers: workers,
+		if arm.runs <= 0 {
+			continue
+		}
+		b := &batch{spec: spec, harness: arm.harness, chunk: arm.chunk, tier: o.tier, base: o.seed + arm.seedOffset, sc: sc, workers: workers,
 			perRun: time.Duration(tp.PerRunS) * time.Second}
+		b.bin, b.race, b.runs = sc.build(arm.harness, arm.race), arm.race, arm.runs
+		b.deadline = time.Now().Add(time.Duration(arm.budgetS) * time.Second)
 		if arm.race {
-			rb := sc.build(spec.Harness, true)
-			// build artefacts of the race arm are separate
-			cp := *sc
-			cp.bins = map[string]string{"plain": rb}
-			b.bin, b.race, b.runs = rb, true, tp.RaceRuns
-			b.deadline = time.Now().Add(time.Duration(tp.RaceBudgetS) * time.Second)
 			b.perRun *= 8
-		} else {
-			b.bin, b.runs = plain, tp.Runs
-			b.deadline = time.Now().Add(time.Duration(tp.BudgetS) * time.Second)
 		}
 		b.runAll()
 		all = append(all, b.outcomes...)
 		if arm.race {
-			raceOutcomes = len(b.outcomes)
+			raceOutcomes += len(b.outcomes)
 		}
 		founds = append(founds, b.founds...)
 		infra = append(infra, b.infra...)
@@ -901,10 +914,7 @@ func cmdRun(args []string) int {
 			var cs caseT
 			if json.Unmarshal(c.first.caseData, &cs) == nil {
 				rf.OpsFound = len(cs.Ops)
-				bin := plain
-				if c.first.race {
-					bin = sc.bins["race"]
-				}
+				bin := sc.build(c.first.harness, c.first.race)
 				sh := &shrinker{bin: bin, wdir: sc.dir, perRun: time.Duration(tp.PerRunS) * time.Second, target: c.first.v,
 					maxAtt: tp.ShrinkAttempts, deadline: time.Now().Add(time.Duration(tp.ShrinkS) * time.Second)}
 				if c.first.race {
